@@ -24,13 +24,56 @@ def all_splits(n):
         yield [(b[i], b[i + 1]) for i in range(len(b) - 1)]
 
 
+BINOPS = ['and', 'or', 'sub', 'add', 'implies', 'iff', 'xor']      # index = the `op` of the driver commands oisect / binrun (Run.bin_f)
+
+
+def gen_online_signal(rng, bad, infs):
+    n = rng.choice([0, 1, 1, 2, 3, 4, 5, 6])
+    t = rng.choice([0, 0, 0, 1, 2, 5])
+    out = []
+    for _ in range(n):
+        v = rng.randint(-3, 3)
+        if infs and rng.random() < 0.1:
+            v = rng.choice(['inf', '-inf'])
+        out.append([t, v])
+        t += rng.choice([0, 0, -1, 1, 2]) if bad else rng.choice([1, 1, 2, 3, 5])
+    if out and rng.random() < 0.15 and not bad:
+        out.append(['inf', out[-1][1]])        # a constant signal / a signal closed at +inf
+    return out
+
+
+def cut_batches(rng, s1, s2):
+    """the two signals cut into the same number of consecutive batches (some empty), a batch sometimes preceded by a repetition of the
+    last sample already sent (same stamp, sometimes another value)"""
+    k = rng.randint(1, max(1, len(s1), len(s2)) + 1)
+
+    def cut(s):
+        cuts = sorted(rng.randint(0, len(s)) for _ in range(k - 1))
+        b = [0] + cuts + [len(s)]
+        out, sent = [], []
+        for i in range(k):
+            part = [list(x) for x in s[b[i]:b[i + 1]]]
+            if sent and part and rng.random() < 0.3:
+                part = [[sent[-1][0], sent[-1][1] if rng.random() < 0.6 else rng.randint(-3, 3)]] + part
+            sent += s[b[i]:b[i + 1]]
+            out.append(part)
+        return out
+    return [list(x) for x in zip(cut(s1), cut(s2))]
+
+
+def sx_samples(l):
+    return '(' + ' '.join('(%s %s)' % (t, v) for t, v in l) + ')'
+
+
 class C05(Check):
     PID = 'C05'
     RULE = ('seeded random past-time (and pastified bounded eventually/always) dense-time formulas x signals with 2-7 samples per variable starting at 0; '
             'nested bounded past operators under a binary operator; for one-variable formulas every one of the 2^(n-1) chunkings (n <= 6), otherwise 24 random chunkings with independent cuts per variable; '
             'per chunking: the concatenated outputs must have non-decreasing stamps and, as a step function, equal Dn (Dense.v) of the (pastified) formula on the '
             'region they cover; all chunkings are thereby compared with each other; non-trivial = temporal operator and >= 4 chunkings; '
-            'distinct by (formula, signals)')
+            'distinct by (formula, signals); plus direct calls of the online intersection(a, b, method) and of update() of the and / or / implies / iff / xor / addition / subtraction '
+            'operations on random batch sequences (empty batches, repeated boundary samples with the same or another value, +inf stamps, 15% malformed streams), compared list for list, '
+            'buffers and last_output included, with the proved model DenseOnlineMerge (oisect_e, bin_run_e)')
 
     def gen_cases(self, rng, tier):
         cases = []
@@ -124,6 +167,18 @@ class C05(Check):
                         ch[str(i)] = full
                     chunkings.append(ch)
             cases.append({'f': f, 'nv': nv, 'sigs': sigs, 'chunkings': chunkings, 'past': fml.has_future(f), 'n': max(len(s) for s in sigs)})
+        # the online merge and the update() wrapper of the binary online operations, called directly: against DenseOnlineMerge.oisect_e /
+        # bin_run_e (theorems C05_binary_merge / C05_binary_run / C05_binary_chunking), list for list, buffers and last_output included
+        nm = 400 if tier == 'quick' else 8000
+        for i in range(nm):
+            op = rng.choice(BINOPS)
+            infs = op in ('and', 'or', 'implies')        # inf - inf is not a number
+            bad = rng.random() < 0.15
+            a, b = gen_online_signal(rng, bad, infs), gen_online_signal(rng, bad and rng.random() < 0.5, infs)
+            if i % 2 == 0:
+                cases.append({'omerge': op, 'a': a, 'b': b, 'n': 0})
+            else:
+                cases.append({'binrun': op, 'batches': cut_batches(rng, a, b), 'n': 0})
         return cases
 
     def load_case(self, c):
@@ -131,6 +186,10 @@ class C05(Check):
         return c
 
     def model_lines(self, c):
+        if 'omerge' in c:
+            return ['(oisect %d %s %s)' % (BINOPS.index(c['omerge']), sx_samples(c['a']), sx_samples(c['b']))]
+        if 'binrun' in c:
+            return ['(binrun %d (%s))' % (BINOPS.index(c['binrun']), ' '.join('(%s %s)' % (sx_samples(b1), sx_samples(b2)) for b1, b2 in c['batches']))]
         kind = 'pastdn' if c['past'] else 'dn'
         used = fml.fvars(c['f'])
         tend = max(c['sigs'][i][-1][0] for i in used)
@@ -139,6 +198,10 @@ class C05(Check):
                 '(%s std %s (%s) 0 %d)' % ('pastrhoz' if c['past'] else 'rhoz', fml.to_sx(c['f']), w, tend + 8)]
 
     def impl_cases(self, c):
+        if 'omerge' in c:
+            return [{'monitor': 'dense-online-merge', 'op': c['omerge'], 'a': c['a'], 'b': c['b']}]
+        if 'binrun' in c:
+            return [{'monitor': 'dense-online-binop', 'op': c['binrun'], 'batches': c['batches']}]
         used = fml.fvars(c['f'])
         out = []
         for ch in c['chunkings']:
@@ -150,9 +213,52 @@ class C05(Check):
                         'pastify': c['past'], 'calls': calls})
         return out
 
+    def judge_direct(self, c, mlines, ires):
+        def lst(txt):
+            return [[(x.rsplit(':', 1)[0] if x.rsplit(':', 1)[0] == 'inf' else int(x.rsplit(':', 1)[0])), fml.val_sx(fml.parse_val(x.rsplit(':', 1)[1]))] for x in txt.split()]
+        canon = lambda l: [[t, fml.val_sx(fml.parse_val(str(v)))] for t, v in l]
+        ml = mlines[0]
+        calls = ires[0]['calls']
+        failed = next((r for r in calls if r['status'] != 'ok'), None)
+        if 'omerge' in c:
+            det = {'call': 'online intersection(a, b, %s)' % c['omerge'], 'a': c['a'], 'b': c['b']}
+            if ml == 'OISECT BAD':
+                if failed is not None and failed['status'] == 'rtamt':
+                    return 'ok', None
+                return 'violation', dict(det, kind='list', expected={'source': 'DenseOnlineMerge.oisect_e', 'value': 'RTAMTException'}, observed=failed or calls[0])
+            parts = [p.strip() for p in ml[len('OISECT'):].split('|')]
+            exp = [lst(parts[0]), (lst(parts[1][len('LAST'):]) or [[]])[0], lst(parts[2][len('R1'):]), lst(parts[3][len('R2'):])]
+            if failed is not None:
+                return 'violation', dict(det, kind='list', expected={'source': 'DenseOnlineMerge.oisect_e', 'value': exp}, observed=failed)
+            got = calls[0]['value']
+            got = [canon(got[0]), (canon([got[1]]) if got[1] else [[]])[0], canon(got[2]), canon(got[3])]
+            if got != exp:
+                return 'violation', dict(det, kind='list', expected={'source': 'DenseOnlineMerge.oisect_e (out, last, remainder_1, remainder_2)', 'value': exp}, observed=got)
+            return 'ok', None
+        det = {'call': '%s operation: update() per batch' % c['binrun'], 'batches': c['batches']}
+        if ml == 'BINRUN BAD':
+            if failed is not None and failed['status'] == 'rtamt':
+                return 'ok', None
+            return 'violation', dict(det, kind='list', expected={'source': 'DenseOnlineMerge.bin_run_e', 'value': 'RTAMTException'}, observed=failed or 'every update() returned')
+        parts = [p.strip() for p in ml[len('BINRUN'):].split('|')]
+        outs = [lst(o) for o in parts[0].split(';')] if c['batches'] else []
+        exp = {'outputs': outs, 'left_buffer': lst(parts[1][len('L'):]), 'right_buffer': lst(parts[2][len('R'):]), 'last_output': (lst(parts[3][len('LO'):]) or [[]])[0]}
+        if failed is not None:
+            return 'violation', dict(det, kind='list', expected=dict(exp, source='DenseOnlineMerge.bin_run_e'), observed=failed)
+        if not all(r.get('args_unchanged', True) for r in calls):
+            return 'violation', dict(det, kind='list', expected='update() leaves its arguments alone', observed='a batch was modified')
+        fin = calls[-1]['value']
+        got = {'outputs': [canon(r['value']) for r in calls[:-1]], 'left_buffer': canon(fin[0]), 'right_buffer': canon(fin[1]), 'last_output': (canon([fin[2]]) if fin[2] else [[]])[0]}
+        if got != exp:
+            return 'violation', dict(det, kind='list', expected=dict(exp, source='DenseOnlineMerge.bin_run_e (outputs per call, buffers, last_output)'), observed=got)
+        self.direct = getattr(self, 'direct', 0) + 1
+        return 'ok', None
+
     def judge(self, c, mlines, ires):
         if mlines[0].startswith('ERROR'):
             return 'model-error', mlines[0]
+        if 'omerge' in c or 'binrun' in c:
+            return self.judge_direct(c, mlines, ires)
         if not dense.dn_exact(mlines[0]):
             return 'dropped', None
         ref = dense.parse_dn(mlines[0])
@@ -190,6 +296,8 @@ class C05(Check):
         return 'ok', None
 
     def signature(self, c, detail):
+        if 'omerge' in c or 'binrun' in c:
+            return {'shape': 'online_merge_differs_from_model', 'op': c.get('omerge', c.get('binrun'))}
         sig = Check.signature(self, c, detail)
         def const_binary(g):
             ks = fml.children(g)
@@ -209,16 +317,33 @@ class C05(Check):
             sig['shape'] = 'fold'
         return sig
 
+    def features(self, c):
+        if 'omerge' in c:
+            return ['online-merge:' + c['omerge']]
+        if 'binrun' in c:
+            return ['online-binop:' + c['binrun']]
+        return Check.features(self, c)
+
     def nontrivial(self, c):
+        if 'omerge' in c:
+            return len(c['a']) + len(c['b']) >= 3
+        if 'binrun' in c:
+            return len(c['batches']) >= 2
         return bool(fml.ops(c['f']) & (fml.UN | fml.BIN | fml.TUN | fml.TBIN) - {'not', 'and', 'or', 'implies', 'iff', 'xor'}) and len(c['chunkings']) >= 4
 
     def key(self, c):
+        if 'omerge' in c or 'binrun' in c:
+            return json.dumps(c, sort_keys=True)
         return json.dumps([fml.to_sx(c['f']), c['sigs']])
 
     def describe(self, c):
+        if 'omerge' in c or 'binrun' in c:
+            return c
         return {'spec': 'out = ' + dense.dense_formula_text(c['f']), 'pastified': c['past'], 'signals': [dense.to_impl(s) for s in c['sigs']], 'chunkings': len(c['chunkings'])}
 
     def normalize(self, c):
+        if 'omerge' in c or 'binrun' in c:
+            return c
         # after shrinking the signals the chunkings are recomputed: one batch per sample and everything at once
         c = dict(c)
         used = fml.fvars(c['f'])
